@@ -338,6 +338,13 @@ def scenarios(tier, seed):
         for par in (True,):
             scs.append(Scan("decay", sk, ("k", "x") if sk in ("ss", "tc") else ("x",), 2, par, via_mc=True))
     scs.append(Scan("decay", "mcscan", ("k",), 2, True))
+    if tier != "quick":
+        # four rows: the pool stub runs the four tasks in input order and in reverse (24 orders would multiply the paths without
+        # adding behaviours: every task runs on its own copy)
+        for sk in ("ss", "tc"):
+            scs.append(Scan("decay", sk, ("k", "x"), 4, True))
+            scs.append(Scan("chain", sk, ("k2", "y"), 4, False))
+            scs.append(Scan("decay", sk, ("k",), 4, True, fail_row=2))
     # a failing row in a model with a readout (the placeholder must have the readout column as well)
     for sk in ("ss", "tc"):
         for par in (False, True):
